@@ -379,6 +379,11 @@ int32_t jls_twr_fsr(struct jls_twr_s * self, uint16_t signal_id,
     if (signal_id >= JLS_SIGNAL_COUNT) {
         return JLS_ERROR_PARAMETER_INVALID;
     }
+    if (0 == self->fsr_entry_size_bits[signal_id]) {
+        // not defined (yet): without a sample size nothing could be queued, and a definition
+        // arriving before the writer thread handles the message would make it read past it
+        return JLS_ERROR_NOT_FOUND;
+    }
     uint32_t length = (data_length * self->fsr_entry_size_bits[signal_id] + 7) / 8;
     int32_t rc;
     if (self->flags & JLS_TWR_FLAG_DROP_ON_OVERFLOW) {
